@@ -156,7 +156,16 @@ func (c LongCodec) Read(r *avro.ReadBuf, p unsafe.Pointer) error {
 		return err
 	}
 
-	*(*time.Time)(p) = time.Unix(0, l*c.mult).UTC()
+	// Convert in the unit of the schema. Multiplying up to nanoseconds first
+	// overflows for instants outside 1677-2262, which millis and micros can hold.
+	switch c.mult {
+	case 1e6:
+		*(*time.Time)(p) = time.UnixMilli(l).UTC()
+	case 1000:
+		*(*time.Time)(p) = time.UnixMicro(l).UTC()
+	default:
+		*(*time.Time)(p) = time.Unix(0, l*c.mult).UTC()
+	}
 	return nil
 }
 
